@@ -76,6 +76,9 @@ fn mutants(tokens: &[Token], muts: &Value, base: &[u8], r: &mut Rnd, dense: bool
     let mut out = vec![Mutant { m: "id".into(), t: None, at: 0, cut: 0, ins: vec![], spec_rej: false }];
     // truncations: every token boundary, and inside every token
     for (j, t) in tokens.iter().enumerate() {
+        if offs[j] >= base.len() {
+            continue; // an empty field at the very end: cutting there is not a truncation
+        }
         out.push(Mutant { m: "trunc".into(), t: Some(j), at: offs[j], cut: 0, ins: vec![], spec_rej: true });
         if t.len >= 2 {
             out.push(Mutant { m: "trunc".into(), t: Some(j), at: offs[j] + 1 + r.below(t.len - 1), cut: 0, ins: vec![], spec_rej: true });
